@@ -235,3 +235,86 @@ func (w *World) sharedResults() []*obResult {
 	}
 	return res
 }
+
+
+// Restricted calls. `restrict SetMode in rfmt [tags] to f1, f2 "why"`: in package <pkg> (all functions of its non-test
+// sources, with or without contract) the method may be called only inside the listed functions, whose contracts tie the
+// call to the state it must agree with (the mode of the printer's buffer and the Safe/Unsafe context). A call anywhere
+// else is an obligation "restricted:<function>:<Method>" that nothing discharges.
+type RestrictDecl struct {
+	Method, Pkg, Why string
+	Tags             []string
+	Allowed          []string
+	File             string
+	Line             int
+}
+
+func (w *World) restrictResults() []*obResult {
+	var res []*obResult
+	for _, rd := range w.Cs.Restrict {
+		allowed := map[string]bool{}
+		for _, a := range rd.Allowed {
+			allowed[a] = true
+		}
+		n := 0
+		for _, pk := range w.Pkgs {
+			if pk.Types == nil || !inModule(pk.Types) || shortPkg(pk.Path) != rd.Pkg {
+				continue
+			}
+			for _, f := range pk.Files {
+				if strings.HasSuffix(w.Fset.Position(f.Pos()).Filename, "_test.go") {
+					continue
+				}
+				for _, d := range f.Decls {
+					fd, ok := d.(*ast.FuncDecl)
+					if !ok || fd.Body == nil {
+						continue
+					}
+					fn := fd.Name.Name
+					if fd.Recv != nil && len(fd.Recv.List) == 1 {
+						fn = strings.TrimPrefix(exprString(fd.Recv.List[0].Type), "*") + "." + fn
+					}
+					ast.Inspect(fd.Body, func(nd ast.Node) bool {
+						c, ok := nd.(*ast.CallExpr)
+						if !ok {
+							return true
+						}
+						sel, ok := ast.Unparen(c.Fun).(*ast.SelectorExpr)
+						if !ok || sel.Sel.Name != rd.Method {
+							return true
+						}
+						if s, ok := pk.Info.Selections[sel]; !ok || s.Kind() != types.MethodVal {
+							return true
+						}
+						n++
+						name := fmt.Sprintf("restricted:%s.%s:%s", rd.Pkg, fn, rd.Method)
+						ob := &Obligation{Name: name, Tags: rd.Tags, Func: rd.Pkg + "." + fn, Kind: "restricted-call", Pos: w.pos(c.Pos()),
+							Descr: fmt.Sprintf("%s is called in %s.%s", rd.Method, rd.Pkg, fn)}
+						r := &obResult{Ob: ob}
+						if allowed[fn] || allowed[fd.Name.Name] {
+							r.Status, r.By = "discharged", "scan"
+							ob.Descr += " -- one of the functions the contracts allow to do so: " + rd.Why
+						} else {
+							r.Status = "undeclared"
+							ob.Descr += " -- which is not among the functions allowed to call it (" + strings.Join(rd.Allowed, ", ") + "): " + rd.Why
+						}
+						res = append(res, r)
+						return true
+					})
+				}
+			}
+		}
+		if n > 0 {
+			w.trustedNote("restricted call " + rd.Method + " in " + rd.Pkg + ": " + rd.Why)
+		}
+	}
+	// unique names
+	seen := map[string]int{}
+	for _, r := range res {
+		seen[r.Ob.Name]++
+		if k := seen[r.Ob.Name]; k > 1 {
+			r.Ob.Name = fmt.Sprintf("%s~%d", r.Ob.Name, k)
+		}
+	}
+	return res
+}
